@@ -519,6 +519,41 @@ def rule_Q(ctx):
             if miss and not any(k == 'register' for k, _ in found):
                 found.append(('register', ('addFeature registers the feature number in every cell its segments pass through',
                                            dict(case, **{'cells without the feature': sorted(miss)}), 'addFeature')))
+        # oblique segments, among them segments that only cut a small triangle off a corner of a cell (legs of 0.008 cell side): the
+        # cells crossed are those in which the segment, clipped to the cell, keeps a positive length (by the checker: Liang-Barsky)
+        def crossed(c1, c2):
+            out = set()
+            for i_ in range(CS):
+                for j_ in range(LS):
+                    t0, t1 = 0.0, 1.0
+                    ok_ = True
+                    for p_, q_ in ((-(c2.x - c1.x), c1.x - i_), (c2.x - c1.x, i_ + 1 - c1.x), (-(c2.y - c1.y), c1.y - j_), (c2.y - c1.y, j_ + 1 - c1.y)):
+                        if p_ == 0:
+                            if q_ < 0:
+                                ok_ = False
+                            continue
+                        r_ = q_ / p_
+                        if p_ < 0:
+                            t0 = max(t0, r_)
+                        else:
+                            t1 = min(t1, r_)
+                    if ok_ and t1 - t0 > 1e-6:
+                        out.add((i_, j_))
+            return out
+        for (x1, y1), (x2, y2) in (((0.1, 1.892), (1.892, 0.1)), ((0.108, 0.1), (1.9, 1.892)), ((0.3, 0.2), (2.7, 1.6)), ((2.9, 0.1), (1.108, 1.892)), ((0.25, 1.9), (2.75, 0.15)),
+                                   ((1.1, 1.9), (2.892, 0.108)), ((0.05, 0.992), (2.95, 1.02))):
+            for a_, b_ in (((x1, y1), (x2, y2)), ((x2, y2), (x1, y1))):
+                c1, c2 = Coord(*a_), Coord(*b_)
+                cells = crossed(c1, c2)
+                case = {'segment': [list(a_), list(b_)], 'cells crossed (by clipping)': sorted(cells)}
+                need('req-seg', 'request([p1, p2]) returns the data of every cell the segment passes through',
+                     call(None, 'request', [c1, c2]), [('cell',) + c_ for c_ in cells], case, 'request')
+                ix = index(fill=False)
+                call(ix, 'addFeature', TrackS([c1, c2]), 9)
+                miss = [c_ for c_ in cells if 9 not in ix.fields['grid'][c_[0]][c_[1]]]
+                if miss and not any(k == 'register' for k, _ in found):
+                    found.append(('register', ('addFeature registers the feature number in every cell its segments pass through',
+                                               dict(case, **{'cells without the feature': sorted(miss)}), 'addFeature')))
     except (IndexError, KeyError, TypeError, AttributeError, ZeroDivisionError) as ex:
         found.append(('fails', ('registration and queries do not fail inside the closed extent', {'exception': '%s: %s' % (type(ex).__name__, ex)}, 'request')))
     # construction: the grid covers the whole (margin-enlarged) extent of the data and feature n is registered under n
